@@ -1,6 +1,6 @@
 (* C18 - wire entry points for the correspondence harness and the executable
    statement (oracle) of the property. *)
-From NR Require Import Lib.Base Lib.PyRt Gen.Rate C18.Model C18.Spec.
+From NR Require Import Lib.Base Lib.PyRt Lib.Wire Gen.Rate C18.Model C18.Spec.
 Open Scope string_scope. Open Scope list_scope. Open Scope Z_scope.
 
 Definition rule_of_jv (v : jv) : rule :=
@@ -70,3 +70,4 @@ Definition interval_c18 (v : jv) : jv :=
 
 Definition suites : list (string * (jv -> jv)) :=
   [("c18.run", run_c18); ("c18.holds", holds_c18); ("c18.interval", interval_c18)].
+Definition dispatch := dispatch_in suites.
